@@ -80,6 +80,17 @@ claim("C18", "exploration",
       "them) but not when judging exact restoration on exit. Re-entering one context object while it is active is refused loudly by the package (AssertionError) and counted as a refusal.",
       "DESIGN.md section 3 C18")
 
+claim("C07", "exploration",
+      "runtime contract on Context._register_expression against an independent structural-key model; end-to-end execution of generated code",
+      "Every Expr construction (random histories of symbols, constants of every value type incl. 0.0/-0.0/NaN/bool/int/numpy scalars under different "
+      "'like' expressions, ~40 operation kinds, lists; with and without the alternative constant context; and tracing + rewriting of all shipped "
+      "algorithms) passes through a recording contract that checks soundness (the returned object has the candidate's structural key: operand identities, "
+      "exact bit pattern and Python type of constant values) and completeness (a repeated key returns the first object), plus uniqueness of intkeys. One "
+      "root per end-to-end history is printed with the Python target, executed and compared bit for bit with an evaluation of the intended DAG.",
+      "Trusted: CPython object identity and struct/numpy byte views. NaN constants: only soundness is demanded (NaN != NaN). A RuntimeError 'attempt to "
+      "re-register equivalent expression' is a loud refusal, counted, not a violation.",
+      "DESIGN.md section 3 C07")
+
 SOURCE_COMMITS = []
 
 
